@@ -385,7 +385,7 @@ class Fn:
 
     # ---- path search ---------------------------------------------------------------------
     def find_path(self, start, is_target, is_blocker=None, edge_ok=None, from_succ=None,
-                  sensitive=True, init_facts=None, require=None):
+                  sensitive=True, init_facts=None, require=None, hit_ok=None):
         """Search a CFG path starting right after event `start` (or at the beginning of block
         `from_succ` if given) that reaches an event satisfying is_target without passing an
         event satisfying is_blocker.  Returns (list of blocks, hit event) or None.
@@ -393,15 +393,29 @@ class Fn:
         {'k':'noreturn'} (block ending in a no-return call).
         require: a (key, polarity) fact; a path ends as soon as that fact is killed (the
         obligation "while this condition holds" is over).
+        hit_ok(event, facts): a target only counts when the facts collected along the path (branch
+        conditions as (key, polarity), constants as (('const', name), value)) satisfy it - see
+        path_value().
         sensitive=True: branch conditions taken along the path are remembered (and killed by
         intervening writes); an edge that contradicts a remembered condition is infeasible and
         is not followed (correlated branches such as `if (!ok && s) ...; if (!s) return`)."""
         fin, atoms = self.facts_in()
 
+        def _pc(d):
+            v = _path_const(d)
+            if v is None:
+                sd = strip(d)
+                # the value of a call that can only return false / null (`lexer_.Error(...)`)
+                if isinstance(sd, dict) and sd.get('k') == 'call' and sd.get('fn') in self.prog.functions:
+                    callee = self.prog.functions[sd['fn']]
+                    if callee.retk in ('bool', 'ptr') and always_fails(self.prog, callee):
+                        return 0
+            return v
+
         def scan(bid, i0, facts):
             evs = self.blocks[bid]['ev']
             for e in evs[i0:]:
-                if is_target(e):
+                if is_target(e) and (hit_ok is None or hit_ok(e, facts)):
                     return 'hit', e
                 if is_blocker and is_blocker(e):
                     return 'blocked', e
@@ -426,24 +440,24 @@ class Fn:
                         ca, cp = norm_cond(self.prog, r0['c'])
                         ck = dstr(ca)
                         arm = r0['t'] if (ck, cp) in facts else r0['f'] if (ck, not cp) in facts else None
-                        if arm is not None and _path_const(arm) is not None:
+                        if arm is not None and _pc(arm) is not None:
                             if e['k'] == 'asg' and strip(e['l']).get('k') in ('var', 'mem'):
                                 lk = dstr(strip(e['l']))
                                 constdesc[lk] = strip(e['l'])
-                                facts.add((('const', lk), _path_const(arm)))
+                                facts.add((('const', lk), _pc(arm)))
                             elif e['k'] == 'decl':
                                 constdesc[e['n']] = {'k': 'var', 'n': e['n'], 'vk': 'local'}
-                                facts.add((('const', e['n']), _path_const(arm)))
+                                facts.add((('const', e['n']), _pc(arm)))
                 if sensitive and e['k'] == 'asg' and e['op'] == '=' and \
-                        _path_const(e.get('r')) is not None and \
+                        _pc(e.get('r')) is not None and \
                         strip(e['l']).get('k') in ('var', 'mem'):
                     lk = dstr(strip(e['l']))
                     constdesc[lk] = strip(e['l'])
-                    facts.add((('const', lk), _path_const(e['r'])))
+                    facts.add((('const', lk), _pc(e['r'])))
                 if sensitive and e['k'] == 'decl' and e.get('init') is not None and \
-                        _path_const(e['init']) is not None and not e.get('static'):
+                        _pc(e['init']) is not None and not e.get('static'):
                     constdesc[e['n']] = {'k': 'var', 'n': e['n'], 'vk': 'local'}
-                    facts.add((('const', e['n']), _path_const(e['init'])))
+                    facts.add((('const', e['n']), _pc(e['init'])))
                 if require is not None and require not in facts:
                     return 'blocked', e
             return 'through', None
@@ -458,6 +472,8 @@ class Fn:
             if (key, not pol) in fs:
                 return True
             a = strip(atom)
+            if pol and _pc(a) == 0 and isinstance(a, dict) and a.get('k') == 'call':
+                return True             # `if (lexer_.Error(...))`: the call only ever returns false
             # a conjunction known false although every conjunct is known true (and dually for ||)
             if isinstance(a, dict) and a.get('k') == 'bin' and a['op'] in ('&&', '||'):
                 want = a['op'] == '&&'
@@ -655,6 +671,33 @@ class Fn:
         return self.reachable_from(self.entry) | {self.entry}
 
 
+def path_value(fn, d, facts, depth=0):
+    """Constant value of expression d on a path with the given find_path facts, or None: constants, locals /
+    fields with a constant assigned on the path, `c ? a : b` with c decided on the path."""
+    v = _path_const(d)
+    if v is not None or depth > 4:
+        return v
+    sd = strip(d)
+    while isinstance(sd, dict) and sd.get('k') == 'cast':
+        sd = strip(sd.get('e'))
+    if not isinstance(sd, dict):
+        return None
+    if sd.get('k') in ('var', 'mem'):
+        lk = sd['n'] if sd.get('k') == 'var' else dstr(sd)
+        for it in facts:
+            if it[0].__class__ is tuple and it[0][1] in (lk, dstr(sd)):
+                return it[1]
+        return None
+    if sd.get('k') == 'cond':
+        ca, cp = norm_cond(fn.prog, sd['c'])
+        ck = dstr(ca)
+        if (ck, cp) in facts:
+            return path_value(fn, sd['t'], facts, depth + 1)
+        if (ck, not cp) in facts:
+            return path_value(fn, sd['f'], facts, depth + 1)
+    return None
+
+
 def store_arms(fn, e):
     """The values a store can write with the extra guard facts of each: `x = c ? a : b` yields
     [(a, {key(c): (True, c)}), (b, {key(c): (False, c)})]; any other store [(r, {})]."""
@@ -758,6 +801,31 @@ def norm_cond(prog, d, depth=0):
             d = d['e']
             pol = not pol
             continue
+        if k == 'cond' and all(x in d for x in ('c', 't', 'f')):
+            # truth of `c ? x : null` is `c && x`; of `c ? null : x` is `!c && x`; dually with `true`
+            def _arm(x):
+                x = strip(x)
+                if isinstance(x, dict):
+                    if x.get('k') in ('null', 'nullptr') or (x.get('k') == 'bool' and x['v'] is False) or \
+                            (x.get('k') == 'int' and x['v'] == 0):
+                        return False
+                    if x.get('k') == 'bool' and x['v'] is True:
+                        return True
+                return None
+            at, af = _arm(d['t']), _arm(d['f'])
+            nc = {'k': 'un', 'op': '!', 'e': d['c'], 'tk': 'bool'}
+            if af is False and at is None:
+                d = {'k': 'bin', 'op': '&&', 'l': d['c'], 'r': d['t'], 'tk': 'bool'}
+                continue
+            if at is False and af is None:
+                d = {'k': 'bin', 'op': '&&', 'l': nc, 'r': d['f'], 'tk': 'bool'}
+                continue
+            if at is True and af is None:
+                d = {'k': 'bin', 'op': '||', 'l': d['c'], 'r': d['f'], 'tk': 'bool'}
+                continue
+            if af is True and at is None:
+                d = {'k': 'bin', 'op': '||', 'l': nc, 'r': d['t'], 'tk': 'bool'}
+                continue
         if k == 'call' and (d.get('op') == '!=' or basename(d.get('name') or '').startswith('operator!=')) and \
                 len((d.get('args') or [])) + (1 if d.get('recv') is not None else 0) == 2:
             # overloaded inequality (std::string, StringPiece, iterators): `a != b` is `!(a == b)`
@@ -897,6 +965,11 @@ def _edge_facts(fn, bid, idx):
     res = list(_edge_facts_uncached(fn, bid, idx))
     seen = {r[0] for r in res}
     for k, pol, atom in list(res):
+        for k3, p3, a3 in _split_composite(fn.prog, atom, pol):
+            if k3 not in seen:
+                res.append((k3, p3, a3))
+                seen.add(k3)
+    for k, pol, atom in list(res):
         a = strip(atom)
         for _ in range(3):
             if isinstance(a, dict) and a.get('k') == 'var' and a.get('vk') == 'local':
@@ -920,6 +993,17 @@ def _edge_facts(fn, bid, idx):
     return res
 
 
+def _variants(fn, c):
+    """The normal forms of a condition: with trivial predicate wrappers expanded (first) and, when
+    that differs, as written (so a rule may name either `edge->AllInputsReady()` or what it expands to)."""
+    a1, p1 = norm_cond(fn.prog, c)
+    out = [(a1, p1)]
+    a2, p2 = norm_cond(None, c)
+    if dstr(a2) != dstr(a1):
+        out.append((a2, p2))
+    return out
+
+
 def _edge_facts_uncached(fn, bid, idx):
     b = fn.blocks[bid]
     t = b.get('term')
@@ -939,23 +1023,27 @@ def _edge_facts_uncached(fn, bid, idx):
             if (jf == '||' and idx == 1) or (jf == '&&' and idx == 0):
                 out = []
                 for o in ops:
-                    atom, pol = norm_cond(fn.prog, o)
-                    if isinstance(strip(atom), dict) and strip(atom).get('k') in ('bool', 'int'):
-                        continue
-                    if jf == '||':
-                        pol = not pol
-                    out.append((dstr(atom), pol, atom))
+                    for atom, pol in _variants(fn, o):
+                        if isinstance(strip(atom), dict) and strip(atom).get('k') in ('bool', 'int'):
+                            continue
+                        if jf == '||':
+                            pol = not pol
+                        if dstr(atom) not in [x[0] for x in out]:
+                            out.append((dstr(atom), pol, atom))
                 return out
             return []       # the other side only tells a disjunction: no usable fact
         c = fn.eff_cond(bid)
         if c is None:
             return []
-        atom, pol = norm_cond(fn.prog, c)
-        if isinstance(strip(atom), dict) and strip(atom).get('k') in ('bool', 'int'):
-            return []             # constant condition: carries no information
-        if idx == 1:
-            pol = not pol
-        return [(dstr(atom), pol, atom)]
+        out = []
+        for atom, pol in _variants(fn, c):
+            if isinstance(strip(atom), dict) and strip(atom).get('k') in ('bool', 'int'):
+                return []             # constant condition: carries no information
+            if idx == 1:
+                pol = not pol
+            if dstr(atom) not in [x[0] for x in out]:
+                out.append((dstr(atom), pol, atom))
+        return out
     if t['kind'] == 'switch' and 'cond' in t:
         s = succ[idx]
         if s is None:
